@@ -64,6 +64,12 @@ pub trait Elem: Sized + 'static {
     /// unique id (0 for zero-sized elements)
     fn id(&self) -> u32;
     fn dup(&self) -> Self;
+    /// element types that `map_in_place` accepts as a target for `Self` (size and alignment not above
+    /// `Self`'s, or zero-sized), and one that it does not (larger size or alignment; `BumpVec::map` only)
+    type MapA: Elem;
+    type MapB: Elem;
+    type MapC: Elem;
+    type MapBig: Elem;
 }
 
 fn new_id() -> u32 {
@@ -120,6 +126,10 @@ impl Elem for Tr {
     fn dup(&self) -> Self {
         Tr::make(self.v)
     }
+    type MapA = Tr8;
+    type MapB = TrZ;
+    type MapC = Tr;
+    type MapBig = Tr32;
 }
 impl Clone for Tr {
     fn clone(&self) -> Self {
@@ -163,6 +173,10 @@ impl Elem for Tr32 {
     fn dup(&self) -> Self {
         Tr32::make(self.v)
     }
+    type MapA = Tr;
+    type MapB = Tr8;
+    type MapC = TrZ;
+    type MapBig = Tr32;
 }
 impl Clone for Tr32 {
     fn clone(&self) -> Self {
@@ -206,6 +220,10 @@ impl Elem for TrZ {
     fn dup(&self) -> Self {
         TrZ::make(0)
     }
+    type MapA = TrZ;
+    type MapB = TrZ;
+    type MapC = TrZ;
+    type MapBig = Tr;
 }
 impl Clone for TrZ {
     fn clone(&self) -> Self {
@@ -221,6 +239,40 @@ impl PartialEq for TrZ {
 impl Drop for TrZ {
     fn drop(&mut self) {
         REG.with(|r| r.borrow_mut().zst_live -= 1);
+        if REG.with(|r| r.borrow().inject_in_drop) {
+            tick("drop");
+        }
+    }
+}
+
+/// 8-byte tracked element (target type of the size-changing maps)
+pub struct Tr8 {
+    id: u32,
+    v: u32,
+}
+impl Elem for Tr8 {
+    const NAME: &'static str = "Tr8";
+    const ZST: bool = false;
+    fn make(v: u32) -> Self {
+        Tr8 { id: new_id(), v }
+    }
+    fn val(&self) -> u32 {
+        self.v
+    }
+    fn id(&self) -> u32 {
+        self.id
+    }
+    fn dup(&self) -> Self {
+        Tr8::make(self.v)
+    }
+    type MapA = Tr8;
+    type MapB = TrZ;
+    type MapC = Tr8;
+    type MapBig = Tr;
+}
+impl Drop for Tr8 {
+    fn drop(&mut self) {
+        note_drop(self.id, CANARY, "Tr8");
         if REG.with(|r| r.borrow().inject_in_drop) {
             tick("drop");
         }
